@@ -202,6 +202,66 @@ Theorem early_loud_rules :
   [ ("codeLocalIncDec", [(1%nat, "codeIncDec")]); ("codeFastCallAttr", [(1%nat, "codeGetAttr")]) ]%string.
 Proof. vm_compute. reflexivity. Qed.
 
+(* ... but the first of the two is loud only SYNTACTICALLY.  INCDEC never fails in the model: Value_incDec adds
+   (or subtracts) an UNTYPED int; the only panicking branch of Value_opAdd is the one for TypeString, and the
+   mixed type Z.lor (vt v) 1 is odd, hence never TypeString (64).  (So `s++` on a string does not panic at
+   run time either: it takes the default, untyped-number branch.) *)
+Lemma incdec_never_panics : forall v n, exists r, Value_incDec v n = Ok r.
+Proof.
+  intros v n. unfold Value_incDec. destruct (n <? 0); [eexists; reflexivity|].
+  unfold Value_opAdd, fn_mixType.
+  change (vt (fn_newUntypedInt n)) with 1.
+  repeat match goal with |- context [if ?c then _ else _] =>
+    match c with
+    | (_ =? TypeString) => fail 1
+    | _ => destruct c; [cbn; eexists; reflexivity|]
+    end end.
+  destruct (Z.lor (vt v) 1 =? TypeString) eqn:E; [|cbn; eexists; reflexivity].
+  exfalso. apply Z.eqb_eq in E.
+  assert (T : Z.testbit (Z.lor (vt v) 1) 0 = Z.testbit TypeString 0) by (rewrite E; reflexivity).
+  rewrite Z.lor_spec in T. cbn in T. rewrite orb_true_r in T. discriminate.
+Qed.
+
+Lemma localincdec_codes : forall r, In r peephole_rules -> r_out r = "codeLocalIncDec"%string ->
+  r_codes r = ["codeLocalGet"; "codeIncDec"; "codeLocalSet"]%string.
+Proof.
+  assert (H : forallb (fun r => if String.eqb (r_out r) "codeLocalIncDec"
+                                then if list_eq_dec string_dec (r_codes r) ["codeLocalGet"; "codeIncDec"; "codeLocalSet"]%string
+                                     then true else false
+                                else true) peephole_rules = true) by (vm_compute; reflexivity).
+  intros r Hr Ho. apply (proj1 (forallb_forall _ _) H r) in Hr. rewrite Ho, String.eqb_refl in Hr.
+  destruct (list_eq_dec string_dec (r_codes r) _) as [E|]; [exact E | discriminate Hr].
+Qed.
+
+(* so a window LOCALGET; INCDEC; LOCALSET never reports anything (no failure, no call): for the LOCALINCDEC
+   rule there is nothing the two optimizer modes could disagree about *)
+Theorem localincdec_window_silent : forall grow eg es el ega esa,
+  forall r, In r peephole_rules -> r_out r = "codeLocalIncDec"%string ->
+  forall w, List.length w = rule_len r -> rule_matches r w = true ->
+  forall codes pc slots ops s, window_report grow eg es el ega esa codes pc w slots ops s = None.
+Proof.
+  intros grow eg es el ega esa r Hr Ho w Hl Hm codes pc slots ops s.
+  pose proof (localincdec_codes r Hr Ho) as Hc.
+  unfold rule_len in Hl. rewrite Hc in Hl.
+  destruct w as [|i1 [|i2 [|i3 [|i4 w]]]]; try discriminate Hl.
+  unfold rule_matches in Hm. apply andb_true_iff in Hm. destruct Hm as [Hm _].
+  rewrite Hc in Hm. cbn [codes_match] in Hm.
+  apply andb_true_iff in Hm. destruct Hm as [H1 Hm].
+  apply andb_true_iff in Hm. destruct Hm as [H2 Hm].
+  apply andb_true_iff in Hm. destruct Hm as [H3 _].
+  apply Z.eqb_eq in H1, H2, H3.
+  change (C "codeLocalGet") with c_LocalGet in H1.
+  change (C "codeIncDec") with c_IncDec in H2.
+  change (C "codeLocalSet") with c_LocalSet in H3.
+  cbn [window_report].
+  rewrite (step1_LocalGet grow eg es el ega esa codes pc i1 slots ops s H1).
+  destruct (znth slots (iA i1)) as [v|]; [|reflexivity].
+  rewrite (step1_IncDec grow eg es el ega esa codes (pc + 1) i2 slots (v :: ops) s H2).
+  destruct (incdec_never_panics v (iA i2)) as [r' Er]. rewrite Er. cbn [slift].
+  rewrite (step1_LocalSet grow eg es el ega esa codes (pc + 1 + 1) i3 slots (r' :: ops) s H3).
+  destruct (znth slots (iA i3)); reflexivity.
+Qed.
+
 (* ---- witnesses ------------------------------------------------------------------------------------------ *)
 
 Definition no_get : st -> value -> value -> option (res value) := fun _ _ _ => None.
